@@ -192,7 +192,7 @@ package eval
 //@   ensures  frame:: frame(s)
 
 //@ func (*State).evalIndexRangeExpression
-//@   requires s != nil && object.plain(left) && object.wfArr(left)
+//@   requires s != nil && s.env != nil && object.plain(left) && object.wfArr(left)
 //@   modifies heap
 //@   maypanic *
 //@   witness li = callresult after Eval#1
